@@ -2,7 +2,8 @@
    (op, ints, byte strings, impl-output tokens); the answer is a token list.
    Ops < 100 run the model; ops >= 100 are property oracles applied to what the
    implementation returned for the same case (out). *)
-From Verif Require Import Base Consts Packet PacketSpec OpenSpec Errors Update UpdateSpec UpdateOracles.
+From Verif Require Import Base Consts Packet PacketSpec OpenSpec Errors Update UpdateSpec UpdateOracles Server ServerSpec.
+From Coq Require Import ZArith.
 
 Definition nthN (l : list N) (i : nat) : N := nth i l 0.
 Definition nthB (l : list bytes) (i : nat) : bytes := nth i l [].
@@ -82,6 +83,70 @@ Fixpoint script_list (fuel : nat) (l : list N) : list (option err) :=
 Definition script_of (l : list N) : script :=
   let sl := script_list (S (length l)) l in
   fun k => nth k sl None.
+
+(* ---- server.go / peer.go tokens ---- *)
+Definition akind_of (k : N) : akind := match k with 1 => A4 | 2 => A6 | _ => AInvalid end.
+Definition tok_akind (k : akind) : N := match k with AInvalid => 0 | A4 => 1 | A6 => 2 end.
+Definition tok_cfg (c : pcfg) : list N := [tok_akind (a_kind (c_remote c)); a_id (c_remote c); c_las c; c_ras c].
+Definition cfg_key (c : pcfg) : N := tok_akind (a_kind (c_remote c)) * 18446744073709551616 + a_id (c_remote c).
+Fixpoint insert_cfg (c : pcfg) (l : list pcfg) : list pcfg :=
+  match l with
+  | [] => [c]
+  | x :: r => if cfg_key c <=? cfg_key x then c :: l else x :: insert_cfg c r
+  end.
+Definition sort_cfgs (l : list pcfg) : list pcfg := fold_right insert_cfg [] l.
+
+Fixpoint sops_of (fuel : nat) (l : list N) : list sop :=
+  match fuel with
+  | O => []
+  | S f =>
+      match l with
+      | 1 :: kr :: ir :: las :: ras :: kl :: il :: hold :: port :: pas :: r =>
+          OAdd (mkCfg (mkAddr (akind_of kr) ir) las ras)
+               (mkOpts (mkAddr (akind_of kl) il) hold (Z.of_N port - 100000) (negb (pas =? 0))) :: sops_of f r
+      | 2 :: k :: i :: r => ODel (mkAddr (akind_of k) i) :: sops_of f r
+      | 3 :: k :: i :: r => OGet (mkAddr (akind_of k) i) :: sops_of f r
+      | 4 :: r => OList :: sops_of f r
+      | 5 :: r => OServe :: sops_of f r
+      | 6 :: r => OClose :: sops_of f r
+      | _ => []
+      end
+  end.
+Definition tok_sres (r : sres) : N :=
+  match r with RNil => 0 | RExists => 1 | RNotExist => 2 | RClosed => 3 | RInvalid => 4 end.
+Definition tok_sout (o : sout) : list N :=
+  match o with
+  | SRes r => [tok_sres r]
+  | SGet None => [2]
+  | SGet (Some c) => 0 :: tok_cfg c
+  | SList l => N.of_nat (length l) :: flat_map tok_cfg (sort_cfgs l)
+  | SServe b => [5; tok_bool b]
+  | SClose b => [6; tok_bool b]
+  end.
+
+(* peers for the admission op: [n; (kR iR kL iL)*] *)
+Fixpoint admit_peers (k : nat) (l : list N) (s : server) : server * list N :=
+  match k with
+  | O => (s, l)
+  | S k' =>
+      match l with
+      | kr :: ir :: kl :: il :: r =>
+          admit_peers k' r (fst (server_step s (OAdd (mkCfg (mkAddr (akind_of kr) ir) 65001 65000)
+                                                     (mkOpts (mkAddr (akind_of kl) il) 90 179 true))))
+      | _ => (s, l)
+      end
+  end.
+
+(* hold-down schedule from gaps, by the closed form: streak index resets on a gap >= 300 s *)
+Fixpoint spec_delays (gaps : list N) (k : nat) (first : bool) : list N :=
+  match gaps with
+  | [] => []
+  | g :: r =>
+      let k' := if first || (sec 300 <=? g) then O else S k in
+      spec_streak_delay k' :: spec_delays r k' false
+  end.
+Fixpoint times_of (gaps : list N) (t : N) : list N :=
+  match gaps with [] => [] | g :: r => (t + g) :: times_of r (t + g) end.
 
 Definition run_model (op : N) (ints : list N) (bs : list bytes) : list N :=
   match op with
@@ -183,6 +248,26 @@ Definition run_model (op : N) (ints : list N) (bs : list bytes) : list N :=
           | _ => [2]
           end
   | 28 => tok_onotif (unfe (oerr_of ints))
+  | 40 => flat_map tok_sout (snd (server_run server_init (sops_of (S (length ints)) ints)))
+  | 41 => match ints with
+          | n :: r =>
+              let (s, r') := admit_peers (N.to_nat n) r server_init in
+              match r' with
+              | [ks; is_; kd; id_; dok] =>
+                  match server_admit s (mkAddr (akind_of ks) is_) (mkAddr (akind_of kd) id_) (negb (dok =? 0)) with
+                  | AdmitTo a => [1; tok_akind (a_kind a); a_id a]
+                  | Refuse => [0]
+                  end
+              | _ => [998]
+              end
+          | [] => [998]
+          end
+  | 42 => match sops_of 1 (1 :: ints) with
+          | [OAdd c o] => [tok_bool (opts_validate o && cfg_validate c o)]
+          | _ => [998]
+          end
+  | 43 => damp_run damp_init (times_of ints 1000000000000)
+  | 44 => [tok_bool (new_server_ok (mkAddr (akind_of (nthN ints 0)) (nthN ints 1)))]
   | _ => [999]
   end.
 
@@ -345,6 +430,33 @@ Definition oracle (op : N) (ints : list N) (bs : list bytes) (out : list N) : li
                                  (script_list (S (length ints)) ints)) out
   | 128 => oracle_unfe (oerr_of ints) out
   | 129 => oracle_errors (nthB bs 0) (script_of ints) out
+  | 141 => (* C13: admitted iff source configured and (no local address or destination = it) *)
+      match ints with
+      | n :: r =>
+          let (s, r') := admit_peers (N.to_nat n) r server_init in
+          match r' with
+          | [ks; is_; kd; id_; dok] =>
+              let src := mkAddr (akind_of ks) is_ in
+              let want := spec_admit (abs s)
+                            (fun a => match lookup a (s_peers s) with
+                                      | Some (_, o) => if is_valid (o_local o) then Some (o_local o) else None
+                                      | None => None end)
+                            src (mkAddr (akind_of kd) id_) (negb (dok =? 0)) in
+              match out with
+              | [1; k; i] => if want && (k =? ks) && (i =? is_) then ok else bad 1
+              | [0] => if want then bad 2 else ok
+              | _ => bad 3
+              end
+          | _ => na
+          end
+      | [] => na
+      end
+  | 142 => match sops_of 1 (1 :: ints) with
+           | [OAdd c o] => if beqb out [tok_bool (usable c o)] then ok else bad 1
+           | _ => na
+           end
+  | 143 => if beqb out (spec_delays ints O true) then ok else bad 1
+  | 144 => if beqb out [tok_bool (nthN ints 0 =? 1)] then ok else bad 1
   | _ => [999]
   end.
 
